@@ -18,7 +18,12 @@ type Scenario struct {
 	Opts  Options
 	Run   func()                 // harness thread 0 (instrumented code)
 	Check func(r *Result) string // "" = fine; otherwise "<signature>: explanation"
-	// Param lets one driver serve several registered scenarios.
+	// Props entries are "Cnn" or "Cnn:prefix1,prefix2" (the property only owns violations whose
+	// signature starts with one of the prefixes; an entry without filter owns the rest).
+	Quick    int // deviation bound of the quick tier
+	Thorough int // deviation bound of the thorough tier
+	Level    int // shard level for the thorough tier (default 2)
+	Desc     string
 }
 
 var registry = map[string]*Scenario{}
@@ -60,6 +65,7 @@ type Report struct {
 	Transitions    int64          `json:"transitions"`
 	States         int            `json:"states"`
 	Outcomes       int            `json:"distinct_outcomes"`
+	OutcomeHashes  []uint64       `json:"outcome_hashes,omitempty"`
 	MaxPoints      int            `json:"max_points"`
 	MaxThreads     int            `json:"max_threads"`
 	Complete       bool           `json:"complete"`
@@ -266,7 +272,10 @@ func envInt(name string, def int) int {
 func WorkerMain() int {
 	if os.Getenv("VRT_LIST") != "" {
 		for _, n := range regOrder {
-			fmt.Printf("%s %s\n", n, strings.Join(registry[n].Props, ","))
+			sc := registry[n]
+			b, _ := json.Marshal(map[string]any{"name": n, "props": sc.Props, "quick": sc.Quick, "thorough": sc.Thorough,
+				"level": sc.Level, "desc": sc.Desc})
+			fmt.Println(string(b))
 		}
 		return 0
 	}
@@ -327,6 +336,11 @@ func WorkerMain() int {
 	}
 	rep.States = len(states)
 	rep.Outcomes = len(outcomes)
+	if len(outcomes) <= 200000 {
+		for k := range outcomes {
+			rep.OutcomeHashes = append(rep.OutcomeHashes, k)
+		}
+	}
 	keys := make([]string, 0, len(vio))
 	for k := range vio {
 		keys = append(keys, k)
